@@ -422,7 +422,7 @@ known("KF-C20-02", "C20", "path-select", r"Extract", r"selection-mismatch:scalar
       '$.x.id on 1 returns ["1"]; $[*].k on [{"k":null},7] returns [null 7]; on a string the unquoted contents are returned', "internal/decoder/*.go DecodePath of the scalar decoders return the scalar itself whatever selectors remain",
       "nothing else (the predicate reproduces go-json's parts exactly)", "scalar decoders would have to report 'not found'")
 
-known("KF-C08-ASAN-01", "C08", "process", r"asan.*", r"asan:(use-after-poison|unknown-crash)", r"/internal/encoder/vm[a-z_]*\\.ptrToPtr @ (core|feature:.*)",
+known("KF-C08-ASAN-01", "C08", "process", r"asan.*", r"asan:(use-after-poison|unknown-crash)", r"/internal/encoder/vm[a-z_]*\.ptrToPtr @ (core|feature:.*)",
       'Marshal(&struct{H [3][2]uint32; Id struct{} `json:",omitempty"`}{}) reads 8 bytes at the offset of the trailing zero-size field: 4 of them lie in the poisoned tail of the allocation', "internal/encoder/vm*/vm.go omitempty opcodes for struct-kind fields load a pointer-sized word at the field offset whatever the field size",
       "other ASan reports whose innermost frame is ptrToPtr", "generated opcodes x 4 interpreters")
 
